@@ -13,8 +13,11 @@ func Register(reg func(id, level string, f func(*load.Prog, *report.Report))) {
 	reg("C03", "proof", C03)
 	reg("C04", "proof", C04)
 	reg("C05", "proof", C05)
+	reg("C06", "other", C06)
 	reg("C07", "proof", C07)
 	reg("C10", "other", C10)
+	reg("C11", "proof", C11)
+	reg("C12", "other", C12)
 	reg("C13", "proof", C13)
 	reg("C14", "proof", C14)
 	reg("C15", "proof", C15)
